@@ -170,7 +170,7 @@ def run_check(check_id, tier, seed, log=print):
               f"pre-state could not be reached through the public API (first: {path}); the claim for these "
               f"families is the bounded-history (BMC) result only")
     if total.errors:
-        problems.append("harness errors: " + " | ".join(e[:2000] for e in total.errors[:3]))
+        problems.append("harness errors: " + " | ".join((e if len(e) < 2600 else e[:300] + " ...[cut]... " + e[-2200:]) for e in total.errors[:3]))
     if unreproduced and not violations:
         r = unreproduced[0]
         path = os.path.join(OUT, "replays", check_id, "unreproduced_0.json")
